@@ -84,6 +84,15 @@ data_ty!(D0);
 data_ty!(D1);
 data_ty!(D2);
 data_ty!(D3);
+/// an inherent associated function that shadows the trait method for the path `<D3>::default()` /
+/// `D3::default()`: generated code must create state data through the `Default` trait, not through whatever
+/// `default` resolves to on the user's type
+impl D3 {
+    #[allow(clippy::should_implement_trait)]
+    pub fn default() -> Self {
+        D3(77)
+    }
+}
 
 pub fn opt_str(o: Option<u64>) -> String {
     match o {
